@@ -24,6 +24,16 @@ def main() -> int:
     try:
         for f in SPEC_DIR.glob("*.tla"):
             shutil.copy(f, tmp / f.name)
+        # the axiom modules are facts about CPython, regenerated at every run (the copies in spec/ are snapshots for the reader)
+        from . import univ
+        from .props import c08, c10
+        problems = univ.check_classes()
+        if problems:
+            print("MACHINERY: a documented rule is not constant on a token class: " + "; ".join(problems[:5]), file=sys.stderr)
+            ok = False
+        for name, text in (("PyAxioms.tla", univ.axioms_tla()), ("CtorAxioms.tla", c08.axioms()), ("PredAxioms.tla", c10.axioms())):
+            (tmp / name).write_text(text)
+            (SPEC_DIR / name).write_text(text)
         for f in sorted(tmp.glob("*.tla")):
             good, out = sany(f)
             print(("ok   " if good else "FAIL ") + f.name)
